@@ -345,6 +345,17 @@ def _mk_from_element(pname, P):
         if c.concrete:
             c.end("symbolic-only: the handler table is replaced by a recorder")
         prot.deserialization_handlers = _Handlers()
+        # history: every class of the interface has already been named legally (xsi:type repeating the declared class)
+        # by earlier elements/requests on this protocol instance -- resolution must not depend on that
+        for k2 in keys:
+            ns2, name2 = k2[1:].split('}')
+            warm = etree.fromstring('<v xmlns:q="%s" xmlns:xsi="%s" xsi:type="q:%s">5</v>' % (ns2, XSI, name2))
+            o2 = getattr(classes[k2], '__orig__', None) or classes[k2]
+            for k1 in keys:          # every legal use: the named class under each class it derives from
+                o1 = getattr(classes[k1], '__orig__', None) or classes[k1]
+                if issubclass(o2, o1):
+                    c.run(prot.from_element, ctx, classes[k1], warm)
+        del entered[:]
         out = c.run(prot.from_element, ctx, declared, elt)
         named = classes[key]
         o_decl = getattr(declared, '__orig__', None) or declared
@@ -364,3 +375,40 @@ def _mk_from_element(pname, P):
 
 for _pn, _P in (('XmlDocument', XmlDocument), ('Soap11', Soap11)):
     _mk_from_element(_pn, _P)
+
+
+from spyne.model.enum import Enum
+
+Colour = Enum('red', 'green', type_name='Colour')
+
+
+class _Elt(object):
+    def __init__(self, text):
+        self.text = text
+        self.tag = 'v'
+        self.nsmap = {}
+        self.attrib = {}
+
+    def get(self, k, default=None):
+        return default
+
+
+def _mk_enum(pname, P):
+    @obligation('C04.enum.%s' % pname, targets=['spyne.protocol.xml:XmlDocument.enum_from_element'],
+                desc="an Enum slot filled from an element with arbitrary (symbolic) text yields a member of that Enum or a "
+                     "ValidationError -- never another attribute of the enum class",
+                assumptions=["getattr(cls, name) on a symbolic name forks over dir(cls)"])
+    def ob(c):
+        prot = P(validator='soft')
+        text = c.str('text')
+        out = c.run(prot.enum_from_element, None, Colour, _Elt(text))
+        members = [getattr(Colour, n) for n in ('red', 'green')]
+        if out.returned:
+            c.check('member_of_the_enum', any(out.value is m for m in members), detail=repr(out.value))
+        else:
+            c.check('validation_error', out.raised_a(ValidationError), detail=repr(out))
+    return ob
+
+
+for _pn, _P in (('XmlDocument', XmlDocument), ('Soap11', Soap11)):
+    _mk_enum(_pn, _P)
